@@ -1,6 +1,5 @@
 """C22 Transports deliver stream frames once, in order, without crashing (real TCPTransport/UDPTransport, protocol factories driven directly)."""
 import asyncio
-import itertools
 import warnings
 
 from xknx.io.transport.tcp_transport import TCPTransport
@@ -219,7 +218,7 @@ def generate(rng, tier):
             cuts = [i + 1 for i in range(n - 1) if mask >> i & 1]
             yield tcp_case(splittings(s, cuts), src="all-splits")
     # ---- longer structured streams -----------------------------------------
-    for _ in range(6 if quick else 60):
+    for _ in range(6 if quick else 250):
         segs = [segment(rng) for _ in range(rng.randint(2, 8))]
         segs = [(fix_bad(b), r, k) if k == "bad" else (b, r, k) for b, r, k in segs]
         tail = b""
@@ -241,7 +240,7 @@ def generate(rng, tier):
             yield tcp_case(splittings(stream, cuts), **kw)
         yield tcp_case([bytes([x]) for x in stream], **kw)
     # ---- streams with unreadable garbage (chunking independence + model only) ----
-    for _ in range(8 if quick else 80):
+    for _ in range(8 if quick else 300):
         parts = []
         for _ in range(rng.randint(2, 6)):
             r = rng.random()
